@@ -170,11 +170,20 @@ def check(case):
     r.states = 0
     r.transitions = 0
 
-    def judge_fit(tag, X, yy, low, sel_want, hull_want, scale_y=1.0):
+    def judge_fit(tag, X, yy, low, sel_want, hull_want, scale_y=1.0, used=False):
         with warnings.catch_warnings():
             warnings.simplefilter("ignore")
             try:
-                m = _fit(X, yy, low)
+                if used:
+                    from skmatter.sample_selection import DirectionalConvexHull
+
+                    m = DirectionalConvexHull(low_dim_idx=low)
+                    yo = (yy.max() - yy) * 1.5 + 0.25 * np.arange(len(yy))
+                    m.fit(X[::-1].copy(), yo)
+                    m.score_samples(X[::-1].copy(), yo)
+                    m.fit(X, yy)
+                else:
+                    m = _fit(X, yy, low)
                 dist = np.asarray(m.score_samples(X, yy), float)
                 got = sorted(int(i) for i in m.selected_idx_)
             except Exception as e:
@@ -212,6 +221,10 @@ def check(case):
     if m0 is None or r.violations or not case["extended"]:
         return r
 
+    # ---- the same fit on a USED instance (fitted and scored before on other targets)
+    judge_fit("used instance", X0, y, list(range(d)), sel, hull, used=True)
+    if r.violations:
+        return r
     # ---- layouts: extra high-dimensional columns, every order of low_dim_idx
     for n_high in (0, 1, 2, 3):
         H = np.array([[np.sin(1.7 * i + 0.9 * j) + 0.3 * j for j in range(n_high)] for i in range(n)], float).reshape(n, n_high)
